@@ -26,6 +26,15 @@
 (*                 components;  TRUE = repaired: the strategies ignore them*)
 (*   Reserve       FALSE = the code as found: check-then-create;  TRUE =   *)
 (*                 repaired: choose + mkdir + create run under one lock    *)
+(*   ForeignRelease TRUE = a download cancelled while it WAITS for the     *)
+(*                 lock releases the lock somebody else holds (acquire()   *)
+(*                 inside try/finally: asyncio.Lock.release() does not     *)
+(*                 check ownership);  FALSE = `async with`, the design     *)
+(*                                                                         *)
+(* Abort(d) (AllowAbort) is TransferManager.abort / pause / remove: the    *)
+(* download's task is cancelled wherever it is - waiting for the lock,     *)
+(* inside the reservation, downloading -, its file is removed and its path *)
+(* forgotten (transfer/state.py _cancel_transfer_tasks, _remove_local_file)*)
 (***************************************************************************)
 EXTENDS Naturals, Sequences, FiniteSets, TLC
 
@@ -38,7 +47,11 @@ CONSTANTS
   SubPre,         \* set of index sets: which pre-exist in the kept directory; {9} = directory absent
   EqualNames,     \* TRUE: all downloads ask for the same file name (race configurations)
   SanitiseDots,
-  Reserve
+  Reserve,
+  AllowAbort,     \* TRUE: downloads may be aborted by the user at any point of their start-up
+  ForeignRelease,
+  OrderedArrival  \* TRUE: download d+1 reaches the reservation after download d did (breaks the
+                  \*       symmetry of equal downloads; bounds the cancellation configurations)
 
 MaxIdx == 6
 
@@ -88,7 +101,8 @@ VARIABLES
   dirs,       \* existing directories below the download directory
   chain,      \* the configured chain (a ChainNames element)
   remote,     \* per download: the remote path (sequence of components)
-  pc,         \* per download: choose, mkdir, touch, start, open, writing, done, refused, failed
+  pc,         \* per download: choose, wait, mkdir, touch, start, open, writing, done, refused,
+              \* failed, aborted
   chosen,     \* per download: the chosen local path relative to the download directory
               \* (directory components as returned, then the file name), <<>> = none
   fresh,      \* per download: the chosen path did not exist when it was chosen
@@ -198,8 +212,18 @@ Active(d) == pc[d] \in {"mkdir", "touch", "start", "open", "writing"}
 \* transfer/manager.py:678-680: local_path := join(calculate_download_path(remote_path)).
 \* `out` is the chosen path; the design uses the transcription of the strategies, the trace
 \* spec binds it from the log (the property constrains the choice, not how it is computed).
+Arrived(d) == pc[d] # "choose"
+MayArrive(d) == OrderedArrival => \A e \in Downloads : e < d => Arrived(e)
+
+\* repaired design: the lock is taken: the download waits in acquire() (a suspension point)
+Wait(d) ==
+  /\ pc[d] = "choose" /\ MayArrive(d)
+  /\ Reserve /\ lock # 0
+  /\ pc' = [pc EXCEPT ![d] = "wait"]
+  /\ UNCHANGED <<files, dirs, chain, remote, chosen, fresh, lock>>
+
 ChooseAs(d, out) ==
-  /\ pc[d] = "choose"
+  /\ pc[d] \in {"choose", "wait"} /\ (pc[d] = "choose" => MayArrive(d))
   /\ Reserve => lock = 0
   /\ chosen' = [chosen EXCEPT ![d] = out]
   /\ fresh' = [fresh EXCEPT ![d] = ~Exists(out)]
@@ -209,7 +233,7 @@ ChooseAs(d, out) ==
 
 \* the code raises instead of choosing: nothing is chosen, nothing is created
 Refuse(d) ==
-  /\ pc[d] = "choose"
+  /\ pc[d] \in {"choose", "wait"} /\ (pc[d] = "choose" => MayArrive(d))
   /\ Reserve => lock = 0
   /\ pc' = [pc EXCEPT ![d] = "refused"]
   /\ UNCHANGED <<files, dirs, chain, remote, chosen, fresh, lock>>
@@ -251,7 +275,7 @@ Created(d) == LET pos == Resolve(chosen[d]) IN IF pos.up = 0 THEN {pos.at} ELSE 
 
 \* repaired design only: the file is created before the lock is released
 Touch(d) ==
-  /\ pc[d] = "touch" /\ lock = d
+  /\ pc[d] = "touch" /\ (lock = d \/ ForeignRelease)
   /\ IF CanOpen(d)
        THEN /\ files' = files \cup Created(d)
             /\ pc' = [pc EXCEPT ![d] = "start"]
@@ -282,7 +306,21 @@ Finish(d) ==
   /\ pc' = [pc EXCEPT ![d] = "done"]
   /\ UNCHANGED <<files, dirs, chain, remote, chosen, fresh, lock>>
 
-Next == \E d \in Downloads : Choose(d) \/ Mkdir(d) \/ Touch(d) \/ Start(d) \/ Open(d) \/ Finish(d)
+\* The user aborts (pauses, removes) download d: its task is cancelled at its current await, the
+\* lock is released if d holds it (`async with`), the local file is removed and the path forgotten.
+\* ForeignRelease: a waiter's `finally: release()` runs although it never got the lock.
+Abort(d) ==
+  /\ AllowAbort
+  /\ pc[d] \in {"wait", "mkdir", "touch", "start", "open", "writing"}
+  /\ pc' = [pc EXCEPT ![d] = "aborted"]
+  /\ lock' = IF lock = d \/ (pc[d] = "wait" /\ ForeignRelease) THEN 0 ELSE lock
+  /\ files' = IF chosen[d] # <<>> THEN files \ Created(d) ELSE files
+  /\ chosen' = [chosen EXCEPT ![d] = <<>>]
+  /\ fresh' = [fresh EXCEPT ![d] = TRUE]
+  /\ UNCHANGED <<dirs, chain, remote>>
+
+Next == \E d \in Downloads :
+          Choose(d) \/ Wait(d) \/ Mkdir(d) \/ Touch(d) \/ Start(d) \/ Open(d) \/ Finish(d) \/ Abort(d)
 
 Spec == Init /\ [][Next]_vars
 
@@ -292,7 +330,8 @@ Spec == Init /\ [][Next]_vars
 TypeOK ==
   /\ chain \in ChainNames
   /\ \A d \in Downloads :
-       pc[d] \in {"choose", "mkdir", "touch", "start", "open", "writing", "done", "refused", "failed"}
+       pc[d] \in {"choose", "wait", "mkdir", "touch", "start", "open", "writing", "done", "refused", "failed",
+                 "aborted"}
   /\ lock \in Downloads \cup {0}
 
 HasChosen(d) == chosen[d] # <<>>
@@ -310,6 +349,9 @@ FreshWhenChosen == \A d \in Downloads : (HasChosen(d) /\ DedupLast(chain)) => fr
 DistinctActivePaths ==
   DedupLast(chain) =>
     \A d, e \in Downloads : (d # e /\ Active(d) /\ Active(e)) => Resolve(chosen[d]) # Resolve(chosen[e])
+
+\* the reservation is exclusive: whoever is between choice and creation holds the lock
+LockHeld == (Reserve /\ ~ForeignRelease) => \A d \in Downloads : pc[d] \in {"mkdir", "touch"} => lock = d
 
 \* state constraint of the path-algebra configurations: what happens after the choice is explored
 \* by the race configurations
